@@ -455,3 +455,32 @@ def handler_static(fn):
         if cid not in seen:
             seen.append(cid)
     return params, never, seen, raises_only
+
+
+def static_dropped(func, handler):
+    """numpy parameters of `func` that `handler` accepts but can never forward: a named handler
+    parameter that is never read, or a parameter only the handler's `*args/**kwargs` could carry
+    while those are never read"""
+    params, never, _targets, _ro = handler_static(handler)
+    named = {p for p, k in params if k not in ("VAR_POSITIONAL", "VAR_KEYWORD")}
+    star_dead = any(k in ("VAR_POSITIONAL", "VAR_KEYWORD") and p in never for p, k in params)
+    has_star = any(k in ("VAR_POSITIONAL", "VAR_KEYWORD") for p, k in params)
+    dropped = []
+    try:
+        nsig = inspect.signature(func)
+    except Exception:  # noqa: BLE001
+        return dropped
+    for p, prm in nsig.parameters.items():
+        if prm.kind in (prm.VAR_POSITIONAL, prm.VAR_KEYWORD):
+            pn = ("*" if prm.kind is prm.VAR_POSITIONAL else "**") + p
+            hk = "VAR_POSITIONAL" if prm.kind is prm.VAR_POSITIONAL else "VAR_KEYWORD"
+            hp = [q for q, k in params if k == hk]
+            if hp and hp[0] in never:
+                dropped.append(pn)
+            continue
+        if p in named:
+            if p in never:
+                dropped.append(p)
+        elif has_star and star_dead:
+            dropped.append(p)
+    return dropped
